@@ -8,11 +8,12 @@
 cd "$(dirname "$0")" || exit 2
 . ./env.sh
 REPO="${VERIF_REPO:-/repo}"
-if [ ! -x bin/dsv ] || [ -n "$(find cmd internal go.mod -newer bin/dsv -print -quit 2>/dev/null)" ]; then
+BIN="${VERIF_BIN:-bin/dsv}"   # VERIF_BIN: a frozen checker binary (used when testing patches while sources are being edited)
+if [ -n "${VERIF_BIN:-}" ]; then :; elif [ ! -x bin/dsv ] || [ -n "$(find cmd internal go.mod -newer bin/dsv -print -quit 2>/dev/null)" ]; then
   ./setup.sh || exit 2
 fi
 TIER="${2:-quick}"
-bin/dsv -property "$1" -tier "$TIER" -repo "$REPO" -verif "$(pwd)" ${VERIF_OUT:+-out "$VERIF_OUT"}
+"$BIN" -property "$1" -tier "$TIER" -repo "$REPO" -verif "$(pwd)" ${VERIF_OUT:+-out "$VERIF_OUT"}
 rc=$?
 if [ "$TIER" = thorough ] && [ $rc -eq 0 ] && [ -z "${VERIF_NO_SELFTEST:-}" ] && [ "$REPO" = /repo ]; then
   out=$(VERIF_SELFTEST=1 tools/selftest.sh "$1" 2>&1); src=$?
